@@ -264,7 +264,10 @@ func (r *ReconcileSuggestion) ReconcileSuggestion(instance *suggestionsv1beta1.S
 		return err
 	}
 
-	if err := r.List(context.TODO(), trials, client.InNamespace(instance.Namespace), client.MatchingLabels(util.TrialLabels(experiment))); err != nil {
+	// Select the Experiment's Trials by the Experiment name label only (as the Experiment controller does).
+	// The Experiment's other labels may have changed since its Trials were created.
+	trialLabels := map[string]string{consts.LabelExperimentName: experiment.Name}
+	if err := r.List(context.TODO(), trials, client.InNamespace(instance.Namespace), client.MatchingLabels(trialLabels)); err != nil {
 		return err
 	}
 	// TODO (andreyvelich): Do we want to run ValidateAlgorithmSettings when Experiment is restarting?
